@@ -58,6 +58,7 @@ impl<M: Matcher> Replacer<M> {
     ) -> io::Result<()> {
         // See the giant comment in 'find_iter_at_in_context' below for why we
         // do this dance.
+        let end_is_open = is_open_ended(searcher, haystack, &range);
         let is_multi_line = searcher.multi_line_with_matcher(&matcher);
         if is_multi_line {
             if haystack[range.end..].len() >= MAX_LOOK_AHEAD {
@@ -82,6 +83,7 @@ impl<M: Matcher> Replacer<M> {
                 matcher,
                 haystack,
                 range.clone(),
+                end_is_open,
                 caps,
                 dst,
                 |caps, dst| {
@@ -498,6 +500,7 @@ where
     // responsible for finding matches when necessary, and the printer
     // shouldn't be involved in this business in the first place. Sigh. Live
     // and learn. Abstraction boundaries are hard.
+    let end_is_open = is_open_ended(searcher, bytes, &range);
     let is_multi_line = searcher.multi_line_with_matcher(&matcher);
     if is_multi_line {
         if bytes[range.end..].len() >= MAX_LOOK_AHEAD {
@@ -513,12 +516,29 @@ where
     }
     matcher
         .find_iter_at(bytes, range.start, |m| {
-            if m.start() >= range.end {
+            if m.start() > range.end
+                || (m.start() == range.end && !end_is_open)
+            {
                 return false;
             }
             matched(m)
         })
         .map_err(io::Error::error_message)
+}
+
+/// Returns true when the given range ends the haystack without a line
+/// terminator. In that case, (and only in that case,) a match at the end of
+/// the range still belongs to the range's last line. Otherwise, the position
+/// at the end of the range is either the start of the next line or comes
+/// after the last line terminator.
+fn is_open_ended(
+    searcher: &Searcher,
+    bytes: &[u8],
+    range: &std::ops::Range<usize>,
+) -> bool {
+    range.end == bytes.len()
+        && range.start < range.end
+        && !searcher.line_terminator().is_suffix(&bytes[range.clone()])
 }
 
 /// Given a buf and some bounds, if there is a line terminator at the end of
@@ -546,6 +566,7 @@ fn replace_with_captures_in_context<M, F>(
     matcher: M,
     bytes: &[u8],
     range: std::ops::Range<usize>,
+    end_is_open: bool,
     caps: &mut M::Captures,
     dst: &mut Vec<u8>,
     mut append: F,
@@ -557,7 +578,8 @@ where
     let mut last_match = range.start;
     matcher.captures_iter_at(bytes, range.start, caps, |caps| {
         let m = caps.get(0).unwrap();
-        if m.start() >= range.end {
+        if m.start() > range.end || (m.start() == range.end && !end_is_open)
+        {
             return false;
         }
         dst.extend(&bytes[last_match..m.start()]);
